@@ -158,7 +158,7 @@ def run_case(case):
             frame = refframe.build(framing, uid, pdu, tid, 0)
             got = []
             between = frame[1:-1] if framing == 'binary' else b''
-            if framing == 'binary' and any(b in (0x7B, 0x7D) for b in between):
+            if framing == 'binary' and refframe.binary_fragile(frame):
                 labels.append('binary-step-bypassed-delimiter')
                 req = pm.decoder('req').decode(pdu)
                 req.unit_id, req.transaction_id = uid, tid
@@ -173,7 +173,7 @@ def run_case(case):
             rsp = req.execute(slave)
             rsp.transaction_id, rsp.unit_id = req.transaction_id, req.unit_id
             out = Framer(pm.decoder('req')).buildPacket(rsp)
-            if framing == 'binary' and any(b in (0x7B, 0x7D) for b in out[1:-1]):
+            if framing == 'binary' and refframe.binary_fragile(out):
                 rpdu = bytes([rsp.function_code]) + rsp.encode()
                 labels.append('binary-step-bypassed-delimiter')
             else:
